@@ -79,21 +79,24 @@ func c14Check(c c14Case) vfResult {
 		}
 		for _, e := range exts {
 			for _, name := range append([]string{e.Mime}, e.Aliases...) {
+				want := shadow.lookup(name)
 				l := Lookup(name)
-				if l == nil {
-					return fmt.Errorf("after step %d: Lookup(%q) is nil", step, name)
+				if l == nil || want == nil {
+					return fmt.Errorf("after step %d: Lookup(%q) = %v, model finds %v", step, name, l, want != nil)
 				}
-				if l.String() != e.Mime || l.Extension() != e.Ext {
-					return fmt.Errorf("after step %d: Lookup(%q) = %s %s, want %s %s", step, name, l.String(), l.Extension(), e.Mime, e.Ext)
+				// the whole chain of the looked-up node must be the model's chain
+				wn := want
+				for ln := l; ln != nil || wn != nil; ln, wn = ln.Parent(), wn.parent {
+					if ln == nil || wn == nil || ln.String() != wn.mime || ln.Extension() != wn.ext {
+						return fmt.Errorf("after step %d: Lookup(%q) has chain %s, model says %s %s with parents up to the root", step, name, vfChainStr(l), want.mime, want.ext)
+					}
 				}
 				var wantParent *MIME
-				if e.Parent == "" {
+				if want.parent != nil && want.parent.parent == nil {
 					wantParent = Lookup("application/octet-stream")
-				} else {
-					wantParent = Lookup(e.Parent)
 				}
-				if l.Parent() != wantParent {
-					return fmt.Errorf("after step %d: Lookup(%q).Parent() is %v, want Lookup(%q) = %v", step, name, l.Parent(), e.Parent, wantParent)
+				if wantParent != nil && l.Parent() != wantParent {
+					return fmt.Errorf("after step %d: Lookup(%q).Parent() is not the root node", step, name)
 				}
 				if !l.Is(name) {
 					return fmt.Errorf("after step %d: Lookup(%q).Is(%q) is false", step, name, name)
